@@ -174,12 +174,13 @@ impl ProjectType {
 				| Self::C | Self::Cargo
 				| Self::Docker
 				| Self::Elixir
-				| Self::Gradle
+				| Self::Go | Self::Gradle
 				| Self::JavaScript
 				| Self::Leiningen
 				| Self::Maven
 				| Self::Perl | Self::PHP
 				| Self::Pip | Self::V
+				| Self::Zig
 		)
 	}
 }
